@@ -345,7 +345,7 @@ class VN:
                 return r
         c = self._module_constant(e.id)
         if c is not None:
-            return self.ev_Constant(c, st)
+            return self.ev_Constant(c, st) if isinstance(c, ast.Constant) else self.ev(c, State())
         return self.sym(e.id)
 
     def _module_constant(self, name):
@@ -362,6 +362,8 @@ class VN:
                     counts[n.targets[0].id] = counts.get(n.targets[0].id, 0) + 1
                     if isinstance(n.value, ast.Constant) and not isinstance(n.value.value, (bytes, type(Ellipsis))):
                         cache[n.targets[0].id] = n.value
+                    elif (n.targets[0].id.startswith("_") or n.targets[0].id.isupper()) and not n.targets[0].id.startswith("__") and _pure_const_expr(n.value):
+                        cache[n.targets[0].id] = n.value       # `_REVERSE = slice(None, None, -1)`, `_CDTYPE = np.complex64`, `_GAMBAR = 4257 * 2`
             for n in ast.walk(mod.tree):
                 if isinstance(n, ast.Global):
                     for g in n.names:
@@ -1637,7 +1639,17 @@ class VN:
     # ------------------------------------------------------------------ statements
     def run(self, stmts, st=None):
         st = st or State()
-        outs = self.block(list(stmts), [st])
+        stmts = list(stmts)
+        # the source normalisations of the model (annotations dropped, `<dev>.xp.f(..)` read as `xp.f(..)`) apply to rule reference texts as well
+        from .model import _InlineXp, _StripAnnotations
+        for s_ in stmts:
+            if not getattr(s_, "_sigverif_norm", False) and isinstance(s_, ast.AST):
+                _InlineXp().visit(s_)
+                try:
+                    s_._sigverif_norm = True
+                except AttributeError:
+                    pass
+        outs = self.block(stmts, [st])
         if self.depth == 0:
             outs = self.split_ifexp(outs)
             kept = []
@@ -2129,6 +2141,25 @@ def is_int_term(p, depth=0):
                 continue
             return False
     return True
+
+
+def _pure_const_expr(n, depth=0):
+    """immutable constant expressions a module-level name may stand for: literals, np.<name> / math.<name>, slice(..) of such, tuples and arithmetic of such"""
+    if depth > 4:
+        return False
+    if isinstance(n, ast.Constant):
+        return not isinstance(n.value, (bytes, type(Ellipsis)))
+    if isinstance(n, ast.Attribute):
+        return isinstance(n.value, ast.Name) and n.value.id in ("np", "math")
+    if isinstance(n, ast.Tuple):
+        return all(_pure_const_expr(x, depth + 1) for x in n.elts)
+    if isinstance(n, ast.UnaryOp):
+        return _pure_const_expr(n.operand, depth + 1)
+    if isinstance(n, ast.BinOp):
+        return _pure_const_expr(n.left, depth + 1) and _pure_const_expr(n.right, depth + 1)
+    if isinstance(n, ast.Call) and isinstance(n.func, ast.Name) and n.func.id == "slice" and not n.keywords:
+        return all(_pure_const_expr(x, depth + 1) for x in n.args)
+    return False
 
 
 def small_array(v):
